@@ -491,6 +491,9 @@ def run_property(pid, tier="quick", seed=0, update_ledger=False, verbose=False):
             "rule": "one evaluation = one generated obligation or one natively executed contract case; distinct = distinct obligation names + functions exercised natively",
             "native_cases": n_bounded,
             "theory_file": theory,
+            "slow_obligations": sorted([{"function": r["name"], "obligation": o["name"], "time_s": o["time_s"], "backend": o["backend"]}
+                                        for r in results for o in r.get("obligations", []) if o.get("time_s", 0) > 5.0],
+                                       key=lambda x: -x["time_s"])[:25],
             "engine_selftest": selftest,
         },
         "assumptions": assumptions, "wall_s": round(wall, 2), "violations": sum(1 for l in lines if l.startswith("VIOLATION")),
